@@ -8,7 +8,10 @@ typedef struct bvar_s {
 	int	api;		/* 0 = tpt_msg_bsend_ex, 1 = tpt_msg_cbsend */
 	uint32_t flags;
 	int	notrun;		/* 0 all running; 1 thread 0 never started (skip_first); 2 last thread detached before the call;
-				 * 3 the caller itself ran thread 0 through tp_thread_attach_first() and was detached again */
+				 * 3 the caller itself ran thread 0 through tp_thread_attach_first() and was detached again;
+				 * 4 tp_shutdown() was called and every worker has left its loop and sits in its stop hook;
+				 * 5 all running, but the calling pool thread's own queue is full (one-page pipes, filled by the caller
+				 *   itself right before the call): the kernel, not an injected errno, refuses the caller's own slot */
 	int	faults;		/* write() fault menu on during the broadcast call */
 } bvar_t;
 
@@ -74,10 +77,21 @@ do_call(tpt_p src) {
 	call_ret_ev = tpc_add(E_CALL_RET, caller_tnum, (long)rc, (long)sent, (long)err);
 }
 
+static int fill_accepted = 0;
+static void
+filler_cb(tpt_p tpt, void *udata) { (void)tpt; (void)udata; }
+
 static void
 caller_seed_cb(tpt_p tpt, void *udata) {
 	(void)udata;
 	caller_tnum = (int)tpt_get_num(tpt);
+	if (5 == cur->notrun) {	/* fill the own queue to the last packet */
+		int k;
+		for (k = 0; k < 400 && 0 == tpt_msg_send(tpt, tpt, 0, filler_cb, NULL); k ++)
+			fill_accepted ++;
+		if (k >= 400) sc_fail("harness", "the caller's queue never became full");
+		sc_log("caller filled its own queue with %d messages", fill_accepted);
+	}
 	do_call(NULL);
 	tpc_scribble();
 }
@@ -90,6 +104,13 @@ detach_cb(tpt_p tpt, void *udata) {
 
 static void
 bcast_scenario(int idx);
+
+static volatile int stop_gate = 0;
+static void
+c10_stop_extra(tpt_p tpt) {	/* the workers' stop hooks wait here: out of their loops, not yet stopped */
+	if ((int)tpt_get_num(tpt) < tpc_W)
+		sc_gate_wait(&stop_gate, "stop-hook");
+}
 
 void *
 c10_detach_sender(void *arg) {	/* queues the detach message for thread 0 as soon as the attaching thread made it sendable */
@@ -113,6 +134,8 @@ bcast_scenario(int idx) {
 	int sync = (0 == v->api && 0 != (v->flags & F_SYNC));
 
 	cur = v;
+	if (5 == v->notrun)
+		sc_small_pipes = 1;
 	if (3 == v->notrun) {
 		pthread_t helper;
 		rc = tpc_create(v->W);
@@ -124,10 +147,16 @@ bcast_scenario(int idx) {
 		if (0 != rc) sc_fail("harness", "attach_first rc=%d", rc);
 		pthread_join(helper, NULL);
 		sc_wait_quiescent();
+	} else if (4 == v->notrun) {
+		stop_gate = 0;
+		tpc_stop_extra = c10_stop_extra;
+		tpc_up(v->W, 0);
+		tp_shutdown(tpc_tp);
+		sc_wait_quiescent();	/* every worker took its shutdown message and is parked in its stop hook */
 	} else
 		tpc_up(v->W, (1 == v->notrun));
 	for (i = 0; i < v->W; i ++)
-		running[i] = 1;
+		running[i] = (4 != v->notrun);
 	if (1 == v->notrun || 3 == v->notrun)
 		running[0] = 0;
 	if (2 == v->notrun) {
@@ -146,6 +175,7 @@ bcast_scenario(int idx) {
 		caller_tnum = -1;
 		do_call(NULL);
 		tpc_scribble();
+		stop_gate = 1;
 	} else {
 		int ct = (1 == v->caller) ? 0 : v->W - 1;
 		if (!running[ct])
@@ -184,7 +214,7 @@ bcast_scenario(int idx) {
 			sc_fail("cb-on-stopped", "thread %d is not running but the callback ran for it", i);
 		/* A call that returned an error delivered nothing (checked below) and is not held to
 		 * "reaches every running thread": the caller was told the broadcast failed. */
-		if (targeted[i] && running[i] && !v->faults && 0 == call_rc && 1 != cbs)
+		if (targeted[i] && running[i] && !v->faults && !(5 == v->notrun && i == caller_tnum) && 0 == call_rc && 1 != cbs)
 			sc_fail("cb-missing", "running thread %d was targeted but ran the callback %d time(s)", i, cbs);
 	}
 	if (0 != call_rc && 0 != total_cb)
